@@ -45,6 +45,10 @@ func (db *DB) applyDeadline(key string, unit string, n int64, tm Time) {
 		lo, hi = tm.Lo+n-1, tm.Hi+n
 	case "EXAT":
 		lo, hi = n*1000, n*1000
+	case "EXAT~":
+		// SET/GETEX ... EXAT: a deadline given in whole seconds is accepted anywhere inside that second
+		// ("within clock granularity"); the emulator deliberately adds the current sub-second offset
+		lo, hi = n*1000, n*1000+999
 	case "PXAT":
 		lo, hi = n, n
 	}
@@ -128,6 +132,9 @@ func cmdSet(db *DB, _ string, a []string, tm Time) Exp {
 	}
 	db.Keys[key] = no
 	if unit != "" {
+		if unit == "EXAT" {
+			unit = "EXAT~"
+		}
 		db.applyDeadline(key, unit, n, tm)
 	}
 	return ret
@@ -264,6 +271,9 @@ func cmdGetex(db *DB, _ string, a []string, tm Time) Exp {
 	if persist {
 		o.HasTTL = false
 	} else if unit != "" {
+		if unit == "EXAT" {
+			unit = "EXAT~"
+		}
 		db.applyDeadline(a[0], unit, n, tm)
 	}
 	return ret
@@ -408,7 +418,7 @@ func cmdSetrange(db *DB, _ string, a []string, tm Time) Exp {
 		}
 		return IntE(int64(len(o.Str)))
 	}
-	if off+int64(len(val)) > 512*1024*1024 {
+	if off > 512*1024*1024 || off+int64(len(val)) > 512*1024*1024 {
 		return ErrE("ERR")
 	}
 	if o == nil {
@@ -505,11 +515,11 @@ func cmdIncrbyfloat(db *DB, _ string, a []string, tm Time) Exp {
 	}
 	inc, exact, valid := exactFloat(a[1])
 	o, wrong := db.typed(a[0], TString, tm)
+	if !valid || math.IsInf(inc, 0) || math.IsNaN(inc) {
+		return badArg()
+	}
 	if wrong {
 		return WrongType()
-	}
-	if !valid {
-		return ErrE("ERR")
 	}
 	if !exact {
 		return Any("increment is not an exact small binary fraction")
